@@ -742,3 +742,303 @@ Section GradientInert.
       + rewrite <- Hw, <- Hf, E. apply vec_eq_refl.
   Qed.
 End GradientInert.
+
+(* ---- (c) the aggregate flag -------------------------------------------------------------------- *)
+Lemma map_nth_seq {A} (l : list A) d : map (fun i => nth i l d) (seq 0 (length l)) = l.
+Proof.
+  induction l as [|a l IH]; [reflexivity|]. cbn [length seq map nth]. f_equal.
+  rewrite <- seq_shift, map_map. exact IH.
+Qed.
+
+Lemma vor_map {A} (f g : A -> bool) l : vor (map f l) (map g l) = map (fun x => f x || g x) l.
+Proof. unfold vor. induction l as [|a l IH]; [reflexivity|]. cbn. now rewrite IH. Qed.
+
+Lemma repeat_map_seq {A} (a : A) n k : repeat a n = map (fun _ => a) (seq k n).
+Proof. revert k. induction n as [|n IH]; intros k; [reflexivity|]. cbn. now rewrite <- IH. Qed.
+
+Local Notation col r := (fun row : list bool => nth r row false).
+
+Lemma or_reduce_spec R m : Forall (fun row : list bool => length row = R) m ->
+  or_reduce R m = map (fun r => existsb (col r) m) (seq 0 R).
+Proof.
+  induction 1 as [|row m Hrow _ IH]; [cbn; apply repeat_map_seq|].
+  cbn [or_reduce fold_right]. fold (or_reduce R m). rewrite IH.
+  rewrite <- (map_nth_seq row false) at 1. rewrite Hrow, vor_map. reflexivity.
+Qed.
+
+Definition wf_bm (R n : nat) (m : list (list bool)) : Prop := length m = n /\ Forall (fun row => length row = R) m.
+
+Lemma wf_flags_none R n : wf_bm R n (flags None n R).
+Proof.
+  split; [apply repeat_length|]. apply Forall_forall. intros row H. apply repeat_spec in H. subst. apply repeat_length.
+Qed.
+
+(* the model of EvaluatorContext.__post_init__ computes the specification whenever it is not handed
+   exactly one None matrix next to a proper one of the other kind *)
+Lemma aggregate_spec_some R nobj ncon o c :
+  wf_bm R nobj o -> wf_bm R ncon c ->
+  agg_flags (aggregate_active R (Some o) (Some c)) R = agg_spec R nobj ncon (Some o) (Some c).
+Proof.
+  intros [_ Ho] [_ Hc]. cbn. rewrite (or_reduce_spec R o Ho), (or_reduce_spec R c Hc), vor_map.
+  unfold agg_spec. cbn [flags]. apply map_ext. intros r. now rewrite existsb_app.
+Qed.
+
+Lemma aggregate_spec_nocon R nobj o :
+  wf_bm R nobj o -> agg_flags (aggregate_active R (Some o) None) R = agg_spec R nobj 0 (Some o) None.
+Proof.
+  intros [_ Ho]. cbn. rewrite (or_reduce_spec R o Ho). unfold agg_spec. cbn [flags repeat]. now rewrite app_nil_r.
+Qed.
+
+Lemma existsb_col_all_true R n r : (0 < n)%nat -> (r < R)%nat -> existsb (col r) (repeat (repeat true R) n) = true.
+Proof.
+  intros Hn Hr. destruct n as [|n]; [lia|]. cbn.
+  rewrite (nth_indep _ false true) by (now rewrite repeat_length). now rewrite nth_repeat.
+Qed.
+
+Lemma aggregate_spec_none R nobj ncon : (0 < nobj)%nat ->
+  agg_flags (aggregate_active R None None) R = agg_spec R nobj ncon None None.
+Proof.
+  intros Hn. cbn. unfold agg_spec. cbn [flags]. transitivity (map (fun _ : nat => true) (seq 0 R)); [apply repeat_map_seq|]. apply map_ext_in.
+  intros r Hr. apply in_seq in Hr. rewrite existsb_app. rewrite (existsb_col_all_true R nobj r Hn) by lia. reflexivity.
+Qed.
+
+(* weights matrices handed around by the code have one row per function and one column per realization *)
+Definition wf_wm (R n : nat) (m : option wmatrix) : Prop :=
+  match m with None => True | Some m => length m = n /\ Forall (fun row => length row = R) m end.
+Definition wf_cache (R nobj ncon : nat) (c : cache) : Prop :=
+  match c with None => True | Some (_, ow, cw) => wf_wm R nobj ow /\ wf_wm R ncon cw end.
+
+Lemma wf_nonzero cfgw n m : wf_wm (length cfgw) n m -> wf_bm (length cfgw) n (map (map nonzero) (in_force cfgw n m)).
+Proof.
+  intros H. destruct m as [m|]; cbn in *.
+  - destruct H as [Hl Hr]. split; [now rewrite map_length|]. apply Forall_map. eapply Forall_impl; [|exact Hr].
+    intros row Hrow. now rewrite map_length.
+  - split; [now rewrite map_length, repeat_length|]. apply Forall_map, Forall_forall. intros row Hin.
+    apply repeat_spec in Hin. subst. now rewrite map_length.
+Qed.
+
+Lemma all_true_flags R n m : wf_bm R n m -> all_true m = true -> m = flags None n R.
+Proof.
+  intros [Hl Hr] Ht. cbn. subst n. unfold all_true in Ht. induction Hr as [|row m Hrow _ IH]; [reflexivity|].
+  cbn in Ht |- *. apply andb_prop in Ht as [Ht1 Ht2]. f_equal; [|now apply IH].
+  subst R. clear -Ht1. induction row as [|b row IH]; [reflexivity|]. cbn in *. apply andb_prop in Ht1 as [-> Ht1].
+  f_equal. now apply IH.
+Qed.
+
+(* for the matrices _get_active_realizations returns, the aggregate is the specification *)
+Theorem aggregate_active_realizations cfgw nobj ncon ow cw :
+  (0 < nobj)%nat -> wf_wm (length cfgw) nobj ow -> wf_wm (length cfgw) ncon cw ->
+  let a := active_realizations cfgw nobj ncon ow cw in
+  agg_flags (aggregate_active (length cfgw) (fst a) (snd a)) (length cfgw) = agg_spec (length cfgw) nobj ncon (fst a) (snd a).
+Proof.
+  intros Hn Ho Hc. unfold active_realizations. set (R := length cfgw).
+  pose proof (wf_nonzero cfgw nobj ow Ho) as Wo. pose proof (wf_nonzero cfgw ncon cw Hc) as Wc. fold R in Wo, Wc.
+  set (ao := map (map nonzero) (in_force cfgw nobj ow)) in *.
+  set (acm := map (map nonzero) (in_force cfgw ncon cw)) in *.
+  destruct cw as [cwm|].
+  - destruct (all_true ao && all_true acm) eqn:E; cbn [fst snd].
+    + now apply aggregate_spec_none.
+    + now apply aggregate_spec_some.
+  - destruct ncon as [|n].
+    + destruct (all_true ao && true) eqn:E; cbn [fst snd]; [now apply aggregate_spec_none | now apply aggregate_spec_nocon].
+    + destruct (all_true ao && all_true acm) eqn:E; cbn [fst snd]; [now apply aggregate_spec_none | now apply aggregate_spec_some].
+Qed.
+
+Lemma plan_active_cases has_filters cfgw nobj ncon c k :
+  wf_cache (length cfgw) nobj ncon c ->
+  plan_active has_filters cfgw nobj ncon c k = (None, None) \/
+  exists ow cw, wf_wm (length cfgw) nobj ow /\ wf_wm (length cfgw) ncon cw /\
+                plan_active has_filters cfgw nobj ncon c k = active_realizations cfgw nobj ncon ow cw.
+Proof.
+  intros Hc. unfold plan_active, active_function_eval, active_split_gradient.
+  assert (Hf : (if has_filters then (None, None) else active_realizations cfgw nobj ncon None None) = (None, None) \/
+               exists ow cw, wf_wm (length cfgw) nobj ow /\ wf_wm (length cfgw) ncon cw /\
+                 (if has_filters then (None, None) else active_realizations cfgw nobj ncon None None)
+                 = active_realizations cfgw nobj ncon ow cw).
+  { destruct has_filters; [now left|]. right. exists None, None. cbn. auto. }
+  destruct k as [B| |]; try exact Hf. destruct c as [[[xc ow] cw]|]; [|exact Hf].
+  right. exists ow, cw. destruct Hc as [H1 H2]. auto.
+Qed.
+
+Theorem aggregate_plan has_filters cfgw nobj ncon c k :
+  (0 < nobj)%nat -> wf_cache (length cfgw) nobj ncon c ->
+  let a := plan_active has_filters cfgw nobj ncon c k in
+  agg_flags (aggregate_active (length cfgw) (fst a) (snd a)) (length cfgw) = agg_spec (length cfgw) nobj ncon (fst a) (snd a).
+Proof.
+  intros Hn Hc. destruct (plan_active_cases has_filters cfgw nobj ncon c k Hc) as [E | (ow & cw & Ho & Hw & E)]; rewrite E.
+  - cbn [fst snd]. now apply aggregate_spec_none.
+  - now apply aggregate_active_realizations.
+Qed.
+
+(* ---- the aggregate says "skip realization r" exactly when every entry of r is flagged inactive ---- *)
+Lemma existsb_col_flags R n m r : wf_bm R n (flags m n R) -> (r < R)%nat ->
+  (existsb (col r) (flags m n R) = false <-> forall j, (j < n)%nat -> flag_at m j r = false).
+Proof.
+  intros [Hl Hrows] Hr. destruct m as [mm|]; cbn [flags flag_at] in *.
+  - rewrite Forall_forall in Hrows. split.
+    + intros He j Hj. rewrite <- Hl in Hj.
+      assert (Hin : In (nth j mm []) mm) by now apply nth_In.
+      rewrite (nth_indep _ true false) by (rewrite (Hrows _ Hin); exact Hr).
+      destruct (nth r (nth j mm []) false) eqn:E; [|reflexivity].
+      assert (existsb (col r) mm = true) by (apply existsb_exists; eauto). congruence.
+    + intros Hall. destruct (existsb (col r) mm) eqn:E; [|reflexivity].
+      apply existsb_exists in E as (row & Hin & Hrow). destruct (In_nth _ _ [] Hin) as (j & Hj & Hnth).
+      rewrite Hl in Hj. specialize (Hall j Hj). rewrite Hnth in Hall.
+      rewrite (nth_indep _ true false) in Hall by (rewrite (Hrows _ Hin); exact Hr). congruence.
+  - destruct n as [|n].
+    + split; [intros _ j Hj; lia | reflexivity].
+    + rewrite (existsb_col_all_true R (S n) r) by lia. split; [discriminate|]. intros H. specialize (H 0%nat ltac:(lia)). discriminate.
+Qed.
+
+Lemma active_realizations_wf cfgw nobj ncon ow cw :
+  wf_wm (length cfgw) nobj ow -> wf_wm (length cfgw) ncon cw ->
+  let a := active_realizations cfgw nobj ncon ow cw in
+  wf_bm (length cfgw) nobj (flags (fst a) nobj (length cfgw)) /\ wf_bm (length cfgw) ncon (flags (snd a) ncon (length cfgw)).
+Proof.
+  intros Ho Hc. unfold active_realizations.
+  pose proof (wf_nonzero cfgw nobj ow Ho) as Wo. pose proof (wf_nonzero cfgw ncon cw Hc) as Wc.
+  set (ao := map (map nonzero) (in_force cfgw nobj ow)) in *.
+  set (acm := map (map nonzero) (in_force cfgw ncon cw)) in *.
+  destruct cw as [cwm|]; [|destruct ncon as [|n]];
+    match goal with |- context [if ?b then _ else _] => destruct b end; cbn [fst snd flags];
+    try (split; [apply wf_flags_none | apply wf_flags_none]); try (split; assumption).
+Qed.
+
+Lemma plan_active_wf has_filters cfgw nobj ncon c k :
+  wf_cache (length cfgw) nobj ncon c ->
+  let a := plan_active has_filters cfgw nobj ncon c k in
+  wf_bm (length cfgw) nobj (flags (fst a) nobj (length cfgw)) /\ wf_bm (length cfgw) ncon (flags (snd a) ncon (length cfgw)).
+Proof.
+  intros Hc. destruct (plan_active_cases has_filters cfgw nobj ncon c k Hc) as [E | (ow & cw & Ho & Hw & E)]; rewrite E.
+  - cbn [fst snd]. split; apply wf_flags_none.
+  - now apply active_realizations_wf.
+Qed.
+
+Lemma agg_at_flags a R r : (r < R)%nat -> agg_at a r = nth r (agg_flags a R) true.
+Proof. intros Hr. destruct a as [l|]; cbn; [reflexivity | now rewrite nth_repeat]. Qed.
+
+Lemma agg_spec_nth R nobj ncon ao ac r : (r < R)%nat ->
+  nth r (agg_spec R nobj ncon ao ac) true = existsb (col r) (flags ao nobj R ++ flags ac ncon R).
+Proof.
+  intros Hr. unfold agg_spec.
+  rewrite (nth_indep _ true (existsb (col 0%nat) (flags ao nobj R ++ flags ac ncon R))) by (now rewrite map_length, seq_length).
+  rewrite (map_nth (fun r => existsb (col r) (flags ao nobj R ++ flags ac ncon R)) (seq 0 R) 0%nat r).
+  now rewrite seq_nth.
+Qed.
+
+Theorem aggregate_inactive_iff has_filters cfgw nobj ncon c k r :
+  (0 < nobj)%nat -> wf_cache (length cfgw) nobj ncon c -> (r < length cfgw)%nat ->
+  let a := plan_active has_filters cfgw nobj ncon c k in
+  agg_at (aggregate_active (length cfgw) (fst a) (snd a)) r = false <->
+  (forall j, (j < nobj)%nat -> flag_at (fst a) j r = false) /\ (forall j, (j < ncon)%nat -> flag_at (snd a) j r = false).
+Proof.
+  intros Hn Hc Hr a. rewrite (agg_at_flags _ (length cfgw) r Hr).
+  unfold a. rewrite (aggregate_plan has_filters cfgw nobj ncon c k Hn Hc). fold a.
+  rewrite (agg_spec_nth _ _ _ _ _ r Hr), existsb_app, orb_false_iff.
+  destruct (plan_active_wf has_filters cfgw nobj ncon c k Hc) as [Wo Wc]. fold a in Wo, Wc.
+  rewrite (existsb_col_flags _ _ _ r Wo Hr), (existsb_col_flags _ _ _ r Wc Hr). reflexivity.
+Qed.
+
+(* ---- from flags to weights: outputs that differ only at entries flagged inactive agree on every
+        entry that carries weight (the hypothesis of the inertness theorems) ------------------------ *)
+Inductive same_where : list bool -> list oQ -> list oQ -> Prop :=
+| sw_nil : same_where [] [] []
+| sw_cons b bs v v' vs vs' : (b = false \/ v = v') -> same_where bs vs vs' -> same_where (b :: bs) (v :: vs) (v' :: vs').
+
+Lemma same_where_nonzero ws : forall vs vs', same_where (map nonzero ws) vs vs' -> agree ws vs vs'.
+Proof.
+  induction ws as [|w ws IH]; intros vs vs' H; inversion H; subst; constructor; [|now apply IH].
+  match goal with Hd : _ \/ _ |- _ => destruct Hd as [Hz|He] end; [left; now apply nonzero_false | now right].
+Qed.
+
+Lemma same_where_true ws : forall vs vs', same_where (repeat true (length ws)) vs vs' -> agree ws vs vs'.
+Proof.
+  induction ws as [|w ws IH]; intros vs vs' H; cbn in H; inversion H; subst; constructor; [|now apply IH].
+  match goal with Hd : _ \/ _ |- _ => destruct Hd as [Hz|He] end; [discriminate | now right].
+Qed.
+
+Lemma in_force_length cfgw n m : wf_wm (length cfgw) n m -> length (in_force cfgw n m) = n.
+Proof. destruct m as [m|]; cbn; [now intros [H _] | now rewrite repeat_length]. Qed.
+
+Lemma in_force_row cfgw n m j ws : wf_wm (length cfgw) n m -> nth_error (in_force cfgw n m) j = Some ws -> length ws = length cfgw.
+Proof.
+  destruct m as [m|]; cbn.
+  - intros [_ H] Hj. rewrite Forall_forall in H. apply H. eapply nth_error_In; eauto.
+  - intros _ Hj. apply nth_error_In, repeat_spec in Hj. now subst.
+Qed.
+
+Lemma nth_flags_none R n j : (j < n)%nat -> nth j (flags None n R) [] = repeat true R.
+Proof. intros Hj. cbn. rewrite (nth_indep _ [] (repeat true R)) by (now rewrite repeat_length). apply nth_repeat. Qed.
+
+Lemma nth_map_nonzero_row (m : wmatrix) j ws : nth_error m j = Some ws -> nth j (map (map nonzero) m) [] = map nonzero ws.
+Proof. intros H. apply nth_error_nth. now apply map_nth_error. Qed.
+
+Theorem flagged_agree_objectives cfgw nobj ncon ow cw j ws vs vs' :
+  wf_wm (length cfgw) nobj ow -> nth_error (in_force cfgw nobj ow) j = Some ws ->
+  same_where (nth j (flags (fst (active_realizations cfgw nobj ncon ow cw)) nobj (length cfgw)) []) vs vs' ->
+  agree ws vs vs'.
+Proof.
+  intros Ho Hj. assert (Hjn : (j < nobj)%nat).
+  { rewrite <- (in_force_length cfgw nobj ow Ho). apply nth_error_Some. congruence. }
+  pose proof (in_force_row cfgw nobj ow j ws Ho Hj) as Hlen.
+  unfold active_realizations. match goal with |- context [if ?b then _ else _] => destruct b end; cbn [fst].
+  - rewrite (nth_flags_none _ _ _ Hjn), <- Hlen. apply same_where_true.
+  - cbn [flags]. rewrite (nth_map_nonzero_row _ _ _ Hj). apply same_where_nonzero.
+Qed.
+
+Theorem flagged_agree_constraints cfgw nobj ncon ow cw j ws vs vs' :
+  wf_wm (length cfgw) ncon cw -> nth_error (in_force cfgw ncon cw) j = Some ws ->
+  same_where (nth j (flags (snd (active_realizations cfgw nobj ncon ow cw)) ncon (length cfgw)) []) vs vs' ->
+  agree ws vs vs'.
+Proof.
+  intros Hc Hj. assert (Hjn : (j < ncon)%nat).
+  { rewrite <- (in_force_length cfgw ncon cw Hc). apply nth_error_Some. congruence. }
+  pose proof (in_force_row cfgw ncon cw j ws Hc Hj) as Hlen.
+  unfold active_realizations.
+  assert (Hac : match cw, ncon with None, O => None | _, _ => Some (map (map nonzero) (in_force cfgw ncon cw)) end
+                = Some (map (map nonzero) (in_force cfgw ncon cw))).
+  { destruct cw; [reflexivity|]. destruct ncon; [lia | reflexivity]. }
+  rewrite Hac. match goal with |- context [if ?b then _ else _] => destruct b end; cbn [snd].
+  - rewrite (nth_flags_none _ _ _ Hjn), <- Hlen. apply same_where_true.
+  - cbn [flags]. rewrite (nth_map_nonzero_row _ _ _ Hj). apply same_where_nonzero.
+Qed.
+
+(* the weights that multiply the values of function j requested by a call of kind k: those of the cached
+   function result for a gradient-only (split) request, the configured ones otherwise; with realization
+   filters the weights of a function/combined request are only known afterwards -- and nothing is flagged *)
+Definition weights_known (has_filters : bool) (cfgw : list Q) (n : nat) (m : option wmatrix) (split : bool) (j : nat)
+           (ws : list Q) : Prop :=
+  if split then nth_error (in_force cfgw n m) j = Some ws
+  else length ws = length cfgw /\ (has_filters = false -> ws = cfgw).
+
+Definition is_split (c : cache) (k : kind) : bool :=
+  match k, c with KGrad, Some _ => true | _, _ => false end.
+Definition cache_ow (c : cache) : option wmatrix := match c with Some (_, ow, _) => ow | None => None end.
+Definition cache_cw (c : cache) : option wmatrix := match c with Some (_, _, cw) => cw | None => None end.
+
+Theorem plan_flagged_agree has_filters cfgw nobj ncon c k j ws vs vs' :
+  wf_cache (length cfgw) nobj ncon c ->
+  ((j < nobj)%nat -> weights_known has_filters cfgw nobj (cache_ow c) (is_split c k) j ws ->
+   same_where (nth j (flags (fst (plan_active has_filters cfgw nobj ncon c k)) nobj (length cfgw)) []) vs vs' ->
+   agree ws vs vs') /\
+  ((j < ncon)%nat -> weights_known has_filters cfgw ncon (cache_cw c) (is_split c k) j ws ->
+   same_where (nth j (flags (snd (plan_active has_filters cfgw nobj ncon c k)) ncon (length cfgw)) []) vs vs' ->
+   agree ws vs vs').
+Proof.
+  intros Hc.
+  assert (Hfun : forall n, (j < n)%nat -> length ws = length cfgw /\ (has_filters = false -> ws = cfgw) ->
+     (same_where (nth j (flags (fst (active_function_eval has_filters cfgw nobj ncon)) n (length cfgw)) []) vs vs' -> n = nobj -> agree ws vs vs') /\
+     (same_where (nth j (flags (snd (active_function_eval has_filters cfgw nobj ncon)) n (length cfgw)) []) vs vs' -> n = ncon -> agree ws vs vs')).
+  { intros n Hj [Hlen Hws]. unfold active_function_eval. destruct has_filters.
+    - cbn [fst snd]. rewrite (nth_flags_none _ _ _ Hj), <- Hlen. split; intros H _; now apply same_where_true.
+    - specialize (Hws eq_refl). subst ws. split; intros H ->.
+      + apply (flagged_agree_objectives cfgw nobj ncon None None j); [exact I | | exact H].
+        cbn. now apply nth_error_repeat.
+      + apply (flagged_agree_constraints cfgw nobj ncon None None j); [exact I | | exact H].
+        cbn. now apply nth_error_repeat. }
+  unfold plan_active, is_split. destruct k as [B| |]; try (split; intros Hj Hw H; [exact (proj1 (Hfun nobj Hj Hw) H eq_refl) | exact (proj2 (Hfun ncon Hj Hw) H eq_refl)]).
+  destruct c as [[[xc ow] cw]|]; [|split; intros Hj Hw H; [exact (proj1 (Hfun nobj Hj Hw) H eq_refl) | exact (proj2 (Hfun ncon Hj Hw) H eq_refl)]].
+  destruct Hc as [Ho Hw]. cbn [cache_ow cache_cw]. unfold weights_known, active_split_gradient. split; intros Hj Hk H.
+  - exact (flagged_agree_objectives cfgw nobj ncon ow cw j ws vs vs' Ho Hk H).
+  - exact (flagged_agree_constraints cfgw nobj ncon ow cw j ws vs vs' Hw Hk H).
+Qed.
